@@ -710,6 +710,7 @@ func c15Run(ctx *core.Ctx, nent int, dotu bool, thorough bool) core.Result {
 		maxName = 60
 	}
 	want := map[string]bool{}
+	lastFile := ""
 	for i := 0; i < nent; i++ {
 		l := 1 + r.Intn(maxName)
 		if i < 4 {
@@ -733,8 +734,14 @@ func c15Run(ctx *core.Ctx, nent int, dotu bool, thorough bool) core.Result {
 			_ = os.Mkdir(full, 0o755)
 		case 1:
 			_ = os.Symlink("target", full)
+		case 3:
+			// a second name of a file that is in the directory already: an entry of its own, with the same qid path
+			if lastFile == "" || os.Link(lastFile, full) != nil {
+				_ = os.WriteFile(full, []byte(name), 0o644)
+			}
 		default:
 			_ = os.WriteFile(full, []byte(name), 0o644)
+			lastFile = full
 		}
 	}
 	hostEnts, _ := os.ReadDir(dir)
